@@ -125,6 +125,17 @@ Proof. exact engine_history_answers. Qed.
 Theorem C05_restart_is_not_drop : exists ce cap c0, ce_fc (ce_restart cap c0 c0 ce) <> ce_fc (ce_drop ce).
 Proof. exact restart_differs_from_drop. Qed.
 
+(* Round 5: the SAME Index object reused after Reset (Reset purges the ForklessCause, HighestBefore and
+   LowestAfter caches itself - Engine.Reset's DropNotFlushed does not fire the callback; capacities stay).
+   Histories of engine operations and Resets onto the same DB (other weights; an unflushed tail is lost and its
+   events may be REPLACED by other events with the same ids) or onto another DB (other validators): every
+   answer equals the specification under the weights / validator count and on the view current when asked. *)
+Theorem C05_reuse_history_answers : forall ws n cap mw ms c0 U ops, WlruProofs.small mw -> Wlru.new mw ms = Some c0 ->
+  rops_ok U (r_init ws n cap c0) ops ->
+  forall ws1 n1 a b r E, In (ws1, n1, (a, b, r, E)) (r_answers (fold_left rstep (map fst ops) (r_init ws n cap c0))) ->
+    r = fc_spec ws1 (quorum_of ws1) n1 E a b.
+Proof. exact reuse_history_answers. Qed.
+
 (* the executable hypothesis check run by the driver on every generated stream *)
 Theorem C05_wf_check_is_hypothesis : forall n E e, wf_evb n E e = true <-> wf_ev n E e.
 Proof. exact wf_evb_iff. Qed.
@@ -202,6 +213,15 @@ Example C05_ex_engine :
   map (fun x => snd (fst x)) out = [true; true; true; true] /\ fc_items (ce_fc ce) = [] /\ nbr (ce_view ce) = 3%nat.
 Proof. vm_compute. repeat split; reflexivity. Qed.
 
+(* reuse: query (2,1) is false under weights 1,1,1 (quorum 3: validators 0 and 1 only) and cached; after a Reset
+   onto the same DB with weights 5,1,1 (quorum 5) the same pair is true: the stale LRU entry is gone *)
+Definition ex_rops : list rop :=
+  map (fun e => RO (CAdd e)) (firstn 4 ex_o) ++ [RO CFlush; RO (CQuery 2 1); RO (CQuery 2 1); RResetSame [5;1;1]; RO (CQuery 2 1)].
+Example C05_ex_reuse :
+  map (fun x => (fst (fst x), snd (fst (snd x)))) (r_answers (fold_left rstep ex_rops (r_init [1;1;1] 3 5 ex_c16))) =
+  [([5;1;1], true); ([1;1;1], false); ([1;1;1], false)].
+Proof. vm_compute. reflexivity. Qed.
+
 Print Assumptions C05_anc_is_ancestry.
 Print Assumptions C05_spec_counts_validator.
 Print Assumptions C05_spec_row_is_spec.
@@ -223,3 +243,4 @@ Print Assumptions C05_restart_answers_equal_spec.
 Print Assumptions C05_vector_caches_transparent.
 Print Assumptions C05_engine_history_answers.
 Print Assumptions C05_restart_is_not_drop.
+Print Assumptions C05_reuse_history_answers.
